@@ -97,6 +97,32 @@ def step (p : PoolDrv.P) (toks : List String) : PoolDrv.P × String :=
 
 end ConcDrv
 
+namespace OrdDrv
+
+structure St where
+  w : WState Nat
+  maxTx : Nat
+
+def counts (w : WState Nat) : String := s!"pool={w.pool.length} pending={w.pend.length}"
+
+def step (st : St) (toks : List String) : St × String :=
+  match toks with
+  | ["ostart", m] => (⟨⟨[], [], 0⟩, Proto.natOf m⟩, "ok")
+  | ["osub", id] =>
+    let i := Proto.natOf id
+    let w := st.w
+    let w' := if has w.pool i || w.pend.any (fun p => p.1 == i) then w else { w with pend := w.pend ++ [(i, [])] }
+    ({ st with w := w' }, counts w')
+  | ["oans", k, h] =>
+    let w' := st.w.answer (Proto.natOf k) (Proto.natOf h)
+    ({ st with w := w' }, counts w')
+  | ["oget", b, h] =>
+    let (w', handed) := st.w.getTx st.w.pool (b == "1") (Proto.natOf h) st.maxTx
+    ({ st with w := w' }, s!"handed={PoolDrv.showIds (PoolDrv.sortNat (keys handed))} {counts w'}")
+  | _ => (st, "bad-op")
+
+end OrdDrv
+
 namespace SrvDrv
 
 /-- MAX_CAPACITY, MAX_LIMITATION come with the `start` op (read from the real constants by the harness). -/
@@ -129,6 +155,7 @@ end SrvDrv
 
 def main (args : List String) : IO Unit :=
   match args with
+  | ["poolord"] => Proto.run (⟨⟨[], [], 0⟩, 0⟩ : OrdDrv.St) OrdDrv.step
   | ["poolsrv"] => Proto.run (⟨0, 0, Srv.init 0⟩ : SrvDrv.St) SrvDrv.step
   | ["pool"] => Proto.run ([] : PoolDrv.P) PoolDrv.step
   | ["poolconc"] => Proto.run ([] : PoolDrv.P) ConcDrv.step
